@@ -49,10 +49,14 @@ theorem compile_length_F0c : ∀ (e : Expr), F0c e = true → ∀ isFn c gs r, (
     rw [compile] at h; simp only [g_pure_ok] at h; subst h; simp [esize]
   | .begin_ es, he, isFn, c, gs, r, h => by
     rw [F0c] at he
-    simp only [Bool.and_eq_true] at he
-    rw [compile] at h
-    have := compileBegin_length_F0c es he.2 isFn c gs r h
-    rw [esize]; omega
+    cases es with
+    | nil =>
+      rw [compile] at h; simp only [g_pure_ok] at h; subst h; simp [esize, esizeList]
+    | cons e0 es0 =>
+      rw [compile] at h
+      · have := compileBegin_length_F0c (e0 :: es0) he isFn c gs r h
+        rw [esize]; omega
+      · intro hh; cases hh
   | .cond arms d, he, isFn, c, gs, r, h => by
     rw [F0c] at he
     simp only [Bool.and_eq_true] at he
